@@ -26,6 +26,7 @@
 from __future__ import annotations
 
 import asyncio
+import functools
 import logging
 import struct
 from collections import defaultdict
@@ -75,6 +76,44 @@ def _bearer_id(bearer: att.Bearer) -> str:
         return f'[0x{bearer.connection.handle:04X}|CID=0x{bearer.source_cid:04X}]'
     else:
         return f'[0x{bearer.handle:04X}]'
+
+
+def _async_request_handler(handler):
+    '''
+    Run an async request handler in a task. Since the task outlives the call from
+    `Server.on_gatt_pdu`, errors must be turned into an Error Response here: a
+    request must never be left without an answer.
+    '''
+
+    @functools.wraps(handler)
+    def wrapper(self: Server, bearer: att.Bearer, request: att.ATT_PDU) -> None:
+        async def run() -> None:
+            try:
+                await handler(self, bearer, request)
+            except att.ATT_Error as error:
+                logger.debug(f'normal exception returned by handler: {error}')
+                self.send_response(
+                    bearer,
+                    att.ATT_Error_Response(
+                        request_opcode_in_error=request.op_code,
+                        attribute_handle_in_error=error.att_handle,
+                        error_code=error.error_code,
+                    ),
+                )
+            except Exception:
+                logger.exception(color("!!! Exception in handler:", "red"))
+                self.send_response(
+                    bearer,
+                    att.ATT_Error_Response(
+                        request_opcode_in_error=request.op_code,
+                        attribute_handle_in_error=0x0000,
+                        error_code=att.ATT_UNLIKELY_ERROR_ERROR,
+                    ),
+                )
+
+        utils.AsyncRunner.spawn(run())
+
+    return wrapper
 
 
 # -----------------------------------------------------------------------------
@@ -711,7 +750,7 @@ class Server(utils.EventEmitter):
 
         self.send_response(bearer, response)
 
-    @utils.AsyncRunner.run_in_task()
+    @_async_request_handler
     async def on_att_find_by_type_value_request(
         self, bearer: att.Bearer, request: att.ATT_Find_By_Type_Value_Request
     ):
@@ -767,7 +806,7 @@ class Server(utils.EventEmitter):
 
         self.send_response(bearer, response)
 
-    @utils.AsyncRunner.run_in_task()
+    @_async_request_handler
     async def on_att_read_by_type_request(
         self, bearer: att.Bearer, request: att.ATT_Read_By_Type_Request
     ):
@@ -847,7 +886,7 @@ class Server(utils.EventEmitter):
 
         self.send_response(bearer, response)
 
-    @utils.AsyncRunner.run_in_task()
+    @_async_request_handler
     async def on_att_read_request(
         self, bearer: att.Bearer, request: att.ATT_Read_Request
     ):
@@ -876,7 +915,7 @@ class Server(utils.EventEmitter):
             )
         self.send_response(bearer, response)
 
-    @utils.AsyncRunner.run_in_task()
+    @_async_request_handler
     async def on_att_read_blob_request(
         self, bearer: att.Bearer, request: att.ATT_Read_Blob_Request
     ):
@@ -924,7 +963,7 @@ class Server(utils.EventEmitter):
             )
         self.send_response(bearer, response)
 
-    @utils.AsyncRunner.run_in_task()
+    @_async_request_handler
     async def on_att_read_by_group_type_request(
         self, bearer: att.Bearer, request: att.ATT_Read_By_Group_Type_Request
     ):
@@ -995,7 +1034,7 @@ class Server(utils.EventEmitter):
 
         self.send_response(bearer, response)
 
-    @utils.AsyncRunner.run_in_task()
+    @_async_request_handler
     async def on_att_read_multiple_request(
         self, bearer: att.Bearer, request: att.ATT_Read_Multiple_Request
     ):
@@ -1037,7 +1076,7 @@ class Server(utils.EventEmitter):
         response = att.ATT_Read_Multiple_Response(set_of_values=b''.join(values))
         self.send_response(bearer, response)
 
-    @utils.AsyncRunner.run_in_task()
+    @_async_request_handler
     async def on_att_read_multiple_variable_request(
         self, bearer: att.Bearer, request: att.ATT_Read_Multiple_Variable_Request
     ):
@@ -1083,7 +1122,7 @@ class Server(utils.EventEmitter):
         )
         self.send_response(bearer, response)
 
-    @utils.AsyncRunner.run_in_task()
+    @_async_request_handler
     async def on_att_write_request(
         self, bearer: att.Bearer, request: att.ATT_Write_Request
     ):
